@@ -35,6 +35,9 @@ THEOREMS = [
     "SqlglotModel.Properties.C10.default_qualifier_needs_tag_first",
     "SqlglotModel.Properties.C10.normalizeT_base",
     "SqlglotModel.Properties.C10.normalizeT_table_sensitive",
+    "SqlglotModel.Properties.C10.cte_sibling_independence",
+    "SqlglotModel.Properties.C10.generated_cte_scoping_ok",
+    "SqlglotModel.Properties.C10.cte_shared_dict_leak_witness",
     "SqlglotModel.Properties.C10.qualify_complete",
     "SqlglotModel.Properties.C10.qualify_complete_all",
     "SqlglotModel.Properties.C10.star_expansion_schema_order",
@@ -194,6 +197,35 @@ def default_qualifier_tag_first(chk: Check) -> bool:
     return all(verdicts)
 
 
+def cte_scoping_sites(chk: Check):
+    """ast of sqlglot/optimizer/scope.py: (Scope.branch passes a freshly built dict as cte_sources, _traverse_ctes updates in place)"""
+    src = open(os.path.join(REPO, "sqlglot", "optimizer", "scope.py"), encoding="utf-8").read()
+    tree = ast.parse(src)
+    copies = None
+    in_place = None
+    for cls in [n for n in tree.body if isinstance(n, ast.ClassDef) and n.name == "Scope"]:
+        for fn in [n for n in cls.body if isinstance(n, ast.FunctionDef) and n.name == "branch"]:
+            for call in [n for n in ast.walk(fn) if isinstance(n, ast.Call) and isinstance(n.func, ast.Name) and n.func.id == "Scope"]:
+                for kw in call.keywords:
+                    if kw.arg == "cte_sources":
+                        v = kw.value
+                        if isinstance(v, ast.Dict) and v.keys and all(k is None for k in v.keys) and any(
+                                isinstance(x, ast.Attribute) and x.attr == "cte_sources" for x in v.values):
+                            copies = True      # {**self.cte_sources, **(...)}: always a new mapping
+                        elif isinstance(v, ast.Call) and ((isinstance(v.func, ast.Name) and v.func.id == "dict") or
+                                                          (isinstance(v.func, ast.Attribute) and v.func.attr == "copy")):
+                            copies = True
+                        elif isinstance(v, (ast.IfExp, ast.BoolOp, ast.Attribute, ast.Name)):
+                            copies = False     # the parent's own mapping can be handed through
+    for fn in [n for n in tree.body if isinstance(n, ast.FunctionDef) and n.name == "_traverse_ctes"]:
+        in_place = any(isinstance(n, ast.Call) and isinstance(n.func, ast.Attribute) and n.func.attr == "update"
+                       and isinstance(n.func.value, ast.Attribute) and n.func.value.attr == "cte_sources"
+                       for n in ast.walk(fn))
+    if copies is None or in_place is None:
+        chk.broken.append({"kind": "translator", "what": "structure changed: Scope.branch(cte_sources=…) / _traverse_ctes not recognised"})
+    return bool(copies), bool(in_place)
+
+
 def translate(chk: Check) -> str:
     rows = dialect_rows()
     chk.cov["dialects"] = len(rows)
@@ -246,6 +278,12 @@ def translate(chk: Check) -> str:
     chk.cov["default_qualifier_tag_first"] = tag_first
     L.append("/-- qualify_tables: is the default db / catalog identifier tagged meta[\"is_table\"] BEFORE it is normalised? -/")
     L.append(f"def defaultQualifierTagFirst : Bool := {lean_bool(tag_first)}")
+    copies, in_place = cte_scoping_sites(chk)
+    chk.cov["scope_branch_copies_cte_sources"] = copies
+    L.append("/-- scope.py: does Scope.branch always build a NEW cte_sources mapping for the inner scope? -/")
+    L.append(f"def branchCopiesCteSources : Bool := {lean_bool(copies)}")
+    L.append("/-- scope.py: does _traverse_ctes add a scope's own WITH definitions to its mapping in place (.update)? -/")
+    L.append(f"def traverseCtesUpdatesInPlace : Bool := {lean_bool(in_place)}")
     L.append("end SqlglotModel.Generated.C10")
     return "\n".join(L) + "\n"
 
@@ -985,7 +1023,17 @@ def oracle(sql, nested_schema, dialect):
             tname = c.table
             if tname:
                 if tname not in vis:
-                    return ("column-source-not-visible", f"column {c.sql(dialect=dialect)} names {tname!r}, visible sources {sorted(vis)} in {s1!r}")
+                    kind = "column-source-not-visible"
+                    # the body of a (non-lateral) derived table naming a SIBLING source of the select it is a source of
+                    x = sel
+                    while x is not None:
+                        if is_source_position(x):
+                            par = enclosing_select(x)
+                            if par is not None and any(it.alias_or_name == tname for it in own_sources(par)):
+                                kind = "column-names-sibling-source-of-derived-table"
+                                break
+                        x = enclosing_select(x)
+                    return (kind, f"column {c.sql(dialect=dialect)} names {tname!r}, visible sources {sorted(vis)} in {s1!r}")
             else:
                 if clause == "order" and c.name in outs:
                     continue
@@ -1411,7 +1459,12 @@ def correspond_queries(chk: Check):
         if chk.quick and time.time() - t0 > 28:
             break
         dialect = rng.choice(dialects)
-        if rng.random() < 0.22:
+        rr = rng.random()
+        if rr < 0.1:
+            # nested WITH shadowing an outer CTE / a schema table, siblings before and after
+            sql, schema = gen_cte_shadow_case(rng, dialect)
+            feats = ["cte-shadow-template"]
+        elif rr < 0.3:
             # every join kind in every position over tables sharing column names, stars over each source
             sql, schema = gen_join_star_case(rng, dialect)
             feats = ["join-star-template"]
@@ -1629,6 +1682,179 @@ def gen_join_star_case(rng, dialect):
     else:
         projs = [aliases[n] + ".*" for n in rng.sample(names, rng.randint(1, len(names)))]
     return "SELECT " + ", ".join(projs) + " FROM " + "".join(parts), schema
+
+
+def gen_cte_shadow_case(rng, dialect):
+    """a WITH nested inside an earlier sibling (derived table / CTE body / subquery) defines a name N that also denotes an
+    outer CTE or a schema table; a LATER sibling selects from N.  Lexically the later sibling sees the outer CTE / the table."""
+    g = Gen(rng, dialect, False)
+    cols = {"t": ["a", "k"], "u": ["b", "k"], "c": ["x", "y"], "w": ["k", "d"], "o": ["e"]}
+    schema = {g.isql(n, False): {g.isql(c, False): "INT" for c in cs} for n, cs in cols.items()}
+    base = ["t", "u", "c", "w"]
+    n = rng.choice(["c", "c", "t", "n1"])             # the contested name (a schema table for c / t; neither for n1)
+    inner_tab = rng.choice([b for b in base if b != n])
+    inner_body = f"SELECT {rng.choice(cols[inner_tab])} AS {rng.choice(['b', 'z', 'k'])} FROM {inner_tab}"
+    outer_ctes = []
+    outer_has_n = rng.random() < 0.5 or n == "n1"
+    if outer_has_n:
+        ot = rng.choice([b for b in base if b not in (n, inner_tab)] or base)
+        outer_ctes.append(f"{n} AS (SELECT {rng.choice(cols[ot])} AS {rng.choice(['a', 'q'])} FROM {ot})")
+    if rng.random() < 0.85 or not outer_ctes:
+        outer_ctes.append(f"o AS (SELECT k FROM w)")
+    if rng.random() < 0.3:
+        rng.shuffle(outer_ctes)
+    with_outer = rng.random() < 0.9
+    early_kind = rng.choice(["derived", "derived", "cte", "subquery"])
+    late_kind = rng.choice(["derived", "derived", "cte", "subquery"])
+    nested = f"WITH {n} AS ({inner_body}) SELECT * FROM {n}"
+    late = f"SELECT * FROM {n}"
+    ctes = list(outer_ctes) if with_outer else []
+    frm = []
+    where = []
+    def place(kind, body, alias):
+        if kind == "derived":
+            frm.append(f"({body}) AS {alias}")
+        elif kind == "cte":
+            ctes.append(f"{alias} AS ({body})")
+            frm.append(alias)
+        else:
+            where.append(f"1 IN ({body})" if False else f"(SELECT 1 FROM ({body}) AS z{alias} LIMIT 1) = 1")
+    order = [("e", early_kind, nested, "s1"), ("l", late_kind, late, "s2")]
+    if rng.random() < 0.15:
+        order.reverse()                                 # control: the nested WITH comes AFTER the plain reference
+    for _, kind, body, alias in order:
+        place(kind, body, alias)
+    if not frm:
+        frm.append("o" if with_outer and any(c.startswith("o AS") for c in ctes) else "w")
+    sql = ("WITH " + ", ".join(ctes) + " " if ctes else "") + "SELECT * FROM " + " CROSS JOIN ".join(frm)
+    if where:
+        sql += " WHERE " + " AND ".join(where)
+    return sql, schema
+
+
+def cte_ops(tree, dialect):
+    """linearise the scope building of a query into branch / update / resolve operations, in sqlglot's traversal order
+    (_traverse_ctes, then _traverse_tables in FROM order, then subqueries); returns (ops, refs, defs) where refs lists the
+    Table nodes resolved and defs maps CTE-definition id -> CTE node"""
+    _, exp, Dialect, *_ = sg()
+    ops, refs, defs = [], [], []
+    counter = [1]   # scope 0 = root
+
+    def new_scope(parent, extra):
+        ops.append({"o": "branch", "p": parent, "x": [[k, v] for k, v in extra]})
+        sid = counter[0]
+        counter[0] += 1
+        return sid
+
+    def walk_query(q, sid):
+        if isinstance(q, exp.Subquery):
+            q = q.unnest()
+        if isinstance(q, exp.SetOperation):
+            raise Outside("set operation")
+        if not isinstance(q, exp.Select):
+            raise Outside("not a select")
+        w = q.args.get("with_")
+        if w is not None:
+            if w.args.get("recursive"):
+                raise Outside("recursive")
+            acc = []
+            for cte in w.expressions:
+                child = new_scope(sid, list(acc))
+                walk_query(cte.this, child)
+                did = len(defs)
+                defs.append(cte)
+                acc.append((cte.alias, did))
+            ops.append({"o": "update", "s": sid, "d": [[k, v] for k, v in reversed(acc)]})
+        items = []
+        f = q.args.get("from_")
+        if f is not None:
+            items.append(f.this)
+        for j in q.args.get("joins") or []:
+            items.append(j.this)
+        for it in items:
+            if isinstance(it, exp.Table):
+                if not it.args.get("db") and isinstance(it.this, exp.Identifier):
+                    ops.append({"o": "resolve", "s": sid, "n": it.name})
+                    refs.append(it)
+            elif isinstance(it, exp.Subquery):
+                child = new_scope(sid, [])
+                walk_query(it.this, child)
+            else:
+                raise Outside("source")
+        # subqueries in projections / WHERE / ...: every Select / Subquery directly below this select that is not a source
+        def subs(node):
+            for k, v in node.args.items():
+                if node is q and k in ("with_", "from_", "joins"):
+                    continue
+                for c in (v if isinstance(v, list) else [v]):
+                    if not isinstance(c, exp.Expr):
+                        continue
+                    if isinstance(c, (exp.Select, exp.SetOperation)):
+                        yield c
+                    elif isinstance(c, exp.Subquery) and isinstance(c.this, (exp.Select, exp.SetOperation)):
+                        yield c.this
+                    else:
+                        yield from subs(c)
+        for sq in subs(q):
+            child = new_scope(sid, [])
+            walk_query(sq, child)
+
+    walk_query(tree, 0)
+    return ops, refs, defs
+
+
+def correspond_cte_visibility(chk: Check):
+    """which CTE definition (or schema table) every table reference denotes: real build_scope vs the Lean store model"""
+    sqlglot, exp, Dialect, Dialects, *_ = sg()
+    from sqlglot.optimizer.scope import Scope, traverse_scope
+    from sqlglot.optimizer.normalize_identifiers import normalize_identifiers
+
+    rng = chk.rng
+    lines, expect, meta = [], [], []
+    n = chk.pick(160, 3000)
+    for ci in range(n):
+        if rng.random() < 0.7:
+            sql, schema = gen_cte_shadow_case(rng, None)
+        else:
+            sql, schema, _ = gen_case(rng, None, True)
+        try:
+            tree = normalize_identifiers(sqlglot.parse_one(sql))
+            ops, refs, defs = cte_ops(tree, None)
+            scopes = traverse_scope(tree)
+        except Outside:
+            continue
+        except Exception:  # noqa
+            continue
+        if not refs:
+            continue
+        body_to_def = {id(d.this.unnest() if isinstance(d.this, exp.Subquery) else d.this): i for i, d in enumerate(defs)}
+        real = {}
+        ambiguous = False
+        for sc in scopes:
+            names = [tb.alias_or_name for tb in sc.tables] + [dt.alias for dt in sc.derived_tables]
+            if len(names) != len(set(names)):
+                ambiguous = True   # two sources of one select share a name: `sources[name]` cannot be attributed
+            for tb in sc.tables:
+                src = sc.sources.get(tb.alias_or_name)
+                if isinstance(src, Scope):
+                    real[id(tb)] = body_to_def.get(id(src.expression), -2)
+                else:
+                    real[id(tb)] = None
+        if ambiguous or any(real.get(id(tb)) == -2 for tb in refs):
+            continue  # a table shares its alias with a derived table of the same select: `sources[alias]` is not this table's
+        want = " ".join("-" if real.get(id(tb)) is None else str(real[id(tb)]) for tb in refs)
+        lines.append(json.dumps({"op": "ctes", "ops": ops}))
+        expect.append(want)
+        meta.append(sql)
+        chk.count("ctes:resolved-references", len(refs))
+        if ci % 97 == 0:
+            chk.case(("ctes", sql), nontrivial=True, sample={"sql": sql, "resolves": want})
+    got = chk.driver("C10", lines) if lines else []
+    chk.corr_cases += len(lines)
+    for g, e, sql in zip(got, expect, meta):
+        if g != e:
+            chk.correspondence_broken("CTE visibility: what each table reference denotes (build_scope vs the Lean scope store)",
+                                      {"sql": sql, "model": g, "impl": e})
 
 
 def db_default_oracle(sql, schema, dialect, as_text, use_catalog, pick):
@@ -1852,6 +2078,11 @@ def search(chk: Check, hints, budget_s):
             sql3, schema3 = gen_join_star_case(rng, d3)
             chk.count("search:join-star-template")
             consider(chk, sql3, schema3, d3, stats)
+        if rng.random() < 0.2:
+            d4 = rng.choice(all_d)
+            sql4, schema4 = gen_cte_shadow_case(rng, d4)
+            chk.count("search:cte-shadow-template")
+            consider(chk, sql4, schema4, d4, stats)
         if len(chk.violations) >= 4:
             break
     chk.search_info = {"ran": True, "budget_s": budget_s, "queries": stats["tried"], "violating": stats["violating"],
@@ -1912,6 +2143,7 @@ def run(chk: Check) -> None:
     try:
         correspond_idents(chk)
         correspond_table_sensitive(chk)
+        correspond_cte_visibility(chk)
         hints = correspond_queries(chk)
     except HarnessError as e:
         if proved:
